@@ -9,6 +9,7 @@ namespace SciVerif.C15.Drive
 * `{"k":"ast","items":[…]}` — a program tree; answer: the rendered lines (the harness
   builds the DIP text from *these*, so the theorem's `render` is what the real parser sees),
   the model's result on them and the specification's result.
+  (a block may have a 6th element `[extra,items]`: lines after its explicit `@end`, deeper than it)
   item = `["n",name,isMod,v,[[extra,prop],…]]` | `["p",prop]` | `["g",name,extra,items]`
        | `["b",[parent parts],[[c,extra,items],…],null|[extra,items],explicitEnd]`
   prop = `"const"` | `"tags:<t>"`
@@ -51,16 +52,23 @@ where
       pure (.imp (← getStrList src) nd)
     | [Json.str "u", Json.str name, b] => pure (.unit name (← b.getBool?))
     | [Json.str "g", Json.str name, e, body] => pure (.group name (← e.getNat?) (← parseItems body))
-    | [Json.str "b", pfx, cls, els, ee] =>
+    | Json.str "b" :: pfx :: cls :: els :: ee :: rest5 =>
       let pfx ← getStrList pfx
+      let (te, tr) ← (match rest5 with
+        | [t] => do
+          let p ← getList t
+          match p with
+          | [x, body] => pure ((← x.getNat?), (← parseItems body))
+          | _ => throw "bad trailer"
+        | _ => pure ((0 : Nat), Items.nil))
       let cl ← getList cls
       let ee ← ee.getBool?
       let tail : Chain ← (match els with
-        | Json.null => pure (Chain.fin ee)
+        | Json.null => pure (Chain.fin ee te tr)
         | e => do
           let p ← getList e
           match p with
-          | [x, body] => pure (Chain.els (← x.getNat?) (← parseItems body) ee)
+          | [x, body] => pure (Chain.els (← x.getNat?) (← parseItems body) ee te tr)
           | _ => throw "bad else")
       let triples ← cl.mapM (fun c => do
         let p ← getList c
